@@ -637,6 +637,14 @@ pub fn exec_effect(w: &Rc<World>, e: &Effect, arg: Option<MV>) {
             act(w, Act::ReadObs { oid, clone: c, res });
         }
         Effect::Observe { node } => do_observe(w, Pool::Any, *node),
+        Effect::ObserveSub { node } => {
+            let before = w.obs.borrow().len();
+            do_observe(w, Pool::Any, *node);
+            let after = w.obs.borrow().len();
+            if after > before {
+                do_subscribe(w, after - 1, HandlerSpec::default());
+            }
+        }
         Effect::DropObs { obs, clone } => do_drop_obs(w, *obs, *clone),
         Effect::Disallow { obs } => do_disallow(w, *obs),
         Effect::DisallowSelf => match ctx {
